@@ -95,6 +95,67 @@ def _keep_table(ctx, v):
     return True
 
 
+def walk_iterator_next(ctx, wb):
+    """When the walk returns an iterator type of the crate's own (a struct built in `walk` that implements
+    `Iterator`), that type's `next`."""
+    adts = set()
+    for bi, j, s in wb.assigns():
+        rv = s["rv"]
+        if rv["k"] == "agg" and rv.get("agg") == "adt" and (rv.get("path") or "").startswith("blockwatch::"):
+            adts.add(rv["path"])
+    c = [b for b in ctx.facts.bodies.values() if b.promoted is None and b.kind == "AssocFn" and b.impl_self_adt in adts
+         and re.search(r" as std::iter::Iterator>::next$", b.id)]
+    return c[0] if len(c) == 1 else None
+
+
+def _next_table(ctx, nb):
+    """A hand-written iterator over the walker's entries on the three-case model: the walker's first item is
+    {Ok + directory, Ok + not a directory, an error}, then it ends. Expected: nothing / Some(Ok(..)) /
+    Some(Err(..)). True / False if every case has one answer, None if the model cannot follow."""
+    from engine import casewalk as CW
+    std = CW.std_hooks()
+    v = ctx.inl(nb, skip=lambda c: False, tag="all-sugar", sugar=True)
+    want = {("Ok", 1): "none", ("Ok", 0): "some-Ok", ("Err", 0): "some-Err"}
+    for (variant, isdir), expect in want.items():
+        def hook(w, bb, t, argv, env):
+            if callee_matches(t, r"^std::path::Path::is_dir$"):
+                return CW.const(isdir)
+            if callee_matches(t, r"^ignore::(walk::)?DirEntry::(path|into_path|file_type|metadata)$"):
+                return CW.sym("PATH")
+            if callee_matches(t, r"Iterator>?::next$") and "ignore::Walk" in ((t.get("arg_tys") or [""])[0]):
+                w.mut_handled = True
+                if env.get(-8) is None:
+                    env[-8] = CW.const(1)
+                    return CW.adt("std::option::Option", "Some", 1, [("0", CW.adt("std::result::Result", variant, 0 if variant == "Ok" else 1, [("0", CW.sym("ENTRY"))]))])
+                return CW.adt("std::option::Option", "None", 0, [])
+            return std(w, bb, t, argv, env)
+        w = CW.Walk(ctx, v, [hook], max_states=4000)
+        results = set()
+
+        def on_visit(bb, env):
+            tm = v.blocks[bb]["term"]
+            if tm and tm["k"] == "return":
+                r0 = env.get(0, CW.TOP)
+                if r0[0] == "adt" and r0[2] == "None":
+                    results.add("none")
+                elif r0[0] == "adt" and r0[2] == "Some":
+                    p0 = w.deref_val(env, w.field(r0, "0"))
+                    results.add("some-%s" % p0[2] if p0[0] == "adt" else "?")
+                else:
+                    results.add("?")
+        w.on_visit = on_visit
+        try:
+            w.explore(0, {1: ("ref", -2, (), True)})
+        except CW.Limit:
+            return None
+        if not results or "?" in results:
+            return None
+        # (more than one outcome: the outcome depends on something else than the three cases)
+        if results != {expect}:
+            return False
+    return True
+
+
 def check_walkfiles(ctx, out, rule="C12.walkfiles"):
     """The directory walk hands on every entry it gets from the `ignore` walker except directories:
     in `FileSystemImpl::walk` an entry is dropped (filter_map -> None / filter -> false) only when
@@ -118,7 +179,8 @@ def check_walkfiles(ctx, out, rule="C12.walkfiles"):
     # the walker is the `ignore` crate's standard one: built by Walk::new / WalkBuilder::new(..).build() without
     # further configuration (an entry filter prunes whole directories; changed standard filters change
     # which files are seen)
-    for cb in ctx.facts.with_descendants(wb):
+    nxt = walk_iterator_next(ctx, wb)
+    for cb in list(ctx.facts.with_descendants(wb)) + (list(ctx.facts.with_descendants(nxt)) if nxt is not None else []):
         for bi, t in cb.calls():
             nm = callee_name(t)
             if re.search(r"^ignore::(walk::)?WalkBuilder::", nm) and not re.search(r"WalkBuilder::(new|build)$", nm):
@@ -211,6 +273,16 @@ def check_walkfiles(ctx, out, rule="C12.walkfiles"):
                 why = ", ".join(render(g[2], 90) for g in (other or gs)[:3])
                 out.viol(rule, "%s|extra-skip" % rule, ctx.where(v, span),
                          "the directory walk drops an entry under the condition [%s]; the only entries to leave out are directories as `Path::is_dir()` sees them (following symbolic links): with any other test a file in scope — a symbolic link to a file, for instance — is never read, so its blocks and its unbalanced tags go unnoticed" % why)
+    if not found and nxt is not None:
+        # the walk as an iterator type of its own: its `next` on the three-case model
+        verdict = _next_table(ctx, nxt)
+        if verdict is True:
+            n += 1
+            found = True
+        elif verdict is False:
+            found = True
+            out.viol(rule, "%s|extra-skip" % rule, ctx.where(nxt),
+                     "the walk's iterator does not hand on exactly the entries that are not directories (case analysis over {Ok + directory, Ok + not a directory, walker error}): an entry that is not a directory, or a walker error, is dropped - or a directory is kept")
     if not found:
         out.viol(rule, "%s|anchor" % rule, ctx.where(wb), "no filter / filter_map closure found in FileSystemImpl::walk")
     out.inst(rule, n, 1, note="drop sites of the walk closure(s): each guarded by Path::is_dir(path) only")
@@ -235,11 +307,22 @@ def check_comment_state(ctx, out, rule="C12.rescan"):
         b = ctx.inl(b0, skip=lambda cb: not (own and cb.impl_self_adt == own), tag="own-methods", sugar=True)
         # the iterator's own Option-typed state (the comment being scanned, or a record holding it)
         flds = set()
+        empty_of = {}
         for bi, sp, pl in util.all_places(b):
             es = [e for e in pl["p"] if isinstance(e, dict) and e.get("f")]
             if es and str(es[0].get("adt", "")) == str(own) and str(es[0].get("ty", "")).startswith("std::option::Option<") \
                     and not re.search(r"Iterator|Peekable|IntoIter", str(es[0].get("ty", ""))):
                 flds.add(str(es[0]["f"]))
+                empty_of[str(es[0]["f"])] = {"None"}
+            elif es and str(es[0].get("adt", "")) == str(own):
+                # ... or a state enum of the crate's own with a field-less "no current comment" variant
+                ad = ctx.facts.adts.get(re.sub(r"<.*$", "", str(es[0].get("ty", ""))))
+                if ad and ad.get("kind") == "enum" and str(ad["path"]).startswith("blockwatch::"):
+                    vs = ad.get("variants", [])
+                    bare = {v["name"] for v in vs if not v.get("fields")}
+                    if bare and len(bare) < len(vs):
+                        flds.add(str(es[0]["f"]))
+                        empty_of[str(es[0]["f"])] = bare
         if not flds:
             continue
         bad = []
@@ -256,7 +339,7 @@ def check_comment_state(ctx, out, rule="C12.rescan"):
             if r0[0] == "adt" and r0[2] == "Some":
                 for fld in flds:
                     cur = w.field(env.get(-2, CW.TOP), fld) if env.get(-2, CW.TOP)[0] == "adt" else CW.TOP
-                    if cur[0] == "adt" and cur[2] == "None":
+                    if cur[0] == "adt" and cur[2] in empty_of.get(fld, {"None"}):
                         bad.append(bb)
         w.on_visit = on_visit
         try:
@@ -310,6 +393,17 @@ def run(ctx, out, tier):
             checked = False
             tests = [(bi, t) for bi, t in pf.calls() if not cfg.loops_containing(bi) and t["args"] and util.base_path(pf, t["args"][0]) == stack
                      and callee_matches(t, r"Vec::<T, A>::(pop|is_empty|len|last|first)$|<impl \[T\]>::(is_empty|len|last|first)$")]
+            if not tests:
+                # the stack moved out of its struct / accumulator before it is tested (`let Self { open, .. } = self`):
+                # a container of the stack's type is the stack when the function builds at most one of that type
+                m_el = re.match(r"&(?:mut )?(std::vec::Vec<(.*)>)$", (pops[0][1].get("arg_tys") or [""])[0])
+                if m_el:
+                    vty, ety = m_el.group(1), m_el.group(2)
+                    built = [bi for bi, t in pf.calls() if (t.get("dest_ty") or "") == vty and not callee_matches(t, r"mem::(take|replace)$")]
+                    if len(built) <= 1:
+                        tests = [(bi, t) for bi, t in pf.calls() if not cfg.loops_containing(bi) and t["args"]
+                                 and re.sub(r"^&(mut )?", "", (t.get("arg_tys") or [""])[0]) in (vty, "[%s]" % ety)
+                                 and callee_matches(t, r"Vec::<T, A>::(pop|is_empty|len|last|first)$|<impl \[T\]>::(is_empty|len|last|first)$")]
             oks = [bi for bi, j, s in pf.assigns() if s["lhs"]["l"] == 0 and s["rv"]["k"] == "agg" and s["rv"].get("variant") == "Ok"]
             for bi, t in tests:
                 if not all(cfg.dominates(bi, o) for o in oks):
